@@ -623,6 +623,44 @@ func vfC09RunShard(t *testing.T, sh *vfC09Shard, key string) {
 		}
 	}
 
+	// postings: every trigram of every stored content / name is found by btreeIndex.Get and its posting list decodes to
+	// exactly the (shard-global) rune offsets where it occurs; brute force over the read-back texts
+	vfC09CheckPostings := func(what string, bi btreeIndex, text func(i uint32) []byte) {
+		want := map[ngram][]uint32{}
+		var runeBase uint32
+		for i := uint32(0); i < d.numDocs(); i++ {
+			var rs []rune
+			for _, r := range string(text(i)) { // invalid bytes decode to U+FFFD, one rune per byte, as utf8.DecodeRune does
+				rs = append(rs, r)
+			}
+			for j := 2; j < len(rs); j++ {
+				ng := runesToNGram([3]rune{rs[j-2], rs[j-1], rs[j]})
+				want[ng] = append(want[ng], runeBase+uint32(j-2))
+			}
+			runeBase += uint32(len(rs))
+		}
+		for ng, offs := range want {
+			sec := bi.Get(ng)
+			blob, err := d.readSectionBlob(sec)
+			got := fromDeltas(blob, nil)
+			if err != nil || fmt.Sprint(got) != fmt.Sprint(offs) {
+				fail("postings-"+what, fmt.Sprintf("%s trigram %q: posting list read back %v, occurs at %v (err %v)", what, ng.String(), got, offs, err))
+				return
+			}
+			if _, ok := want[ng+1]; !ok {
+				if s := bi.Get(ng + 1); s.sz != 0 {
+					fail("postings-"+what, fmt.Sprintf("%s trigram %q is absent but Get returns a section", what, (ng + 1).String()))
+					return
+				}
+			}
+		}
+		if m := bi.DumpMap(); len(m) != len(want) {
+			fail("postings-"+what, fmt.Sprintf("%s index holds %d trigrams, the texts contain %d", what, len(m), len(want)))
+		}
+	}
+	vfC09CheckPostings("content", d.contentNgrams, func(i uint32) []byte { c, _ := d.readContents(i); return c })
+	vfC09CheckPostings("name", d.fileNameNgrams, func(i uint32) []byte { return d.fileName(i) })
+
 	// ---------- correspondence record ----------
 	toc := indexTOC{}
 	rd := &reader{r: mem}
